@@ -18,7 +18,7 @@ In both, the set of wake-ups, their times, priorities and the block of handles t
 import random
 
 SIGS = [-2, -5, -4, -7, 3, 11]          # interrupt / timer / resume signals (never 0 = SUCCESS)
-PROFILES = ["resource", "pool", "buffer", "oq", "pq", "cond", "lifecycle", "timers", "mixed", "crowd", "record", "poolprio", "condcrowd", "condfwd", "evgrow", "prioq", "record2", "pqreprio", "poolleft"]
+PROFILES = ["resource", "pool", "buffer", "oq", "pq", "cond", "lifecycle", "timers", "mixed", "crowd", "record", "poolprio", "condcrowd", "condfwd", "evgrow", "prioq", "record2", "pqreprio", "poolleft", "longrec"]
 
 
 def gen_scenario(rng, profile=None, size=None, exclude=frozenset()):
@@ -235,6 +235,35 @@ def gen_scenario(rng, profile=None, size=None, exclude=frozenset()):
                 cmds.append("prel 1 1")
             out += ["proc %d 1 %d" % (rng.randint(0, 3), len(cmds))] + cmds
         return out, {"profile": profile, "procs": 2, "lines": len(out)}
+    if profile == "longrec":
+        # one recorded object driven through many changes by one process: histories that cross the growth thresholds of the
+        # history arrays (1024 samples), values that repeat (a sample equal to the running mean), changes in the same instant
+        kind = rng.choice(["buf", "oq", "res", "pool"])
+        k = rng.choice([3, 10, 40, 40, 120]) if rng.random() < 0.9 else rng.choice([515, 530, 600])
+        head = {"buf": "buf 5", "oq": "oq 4", "res": "res", "pool": "pool 6"}[kind]
+        code = {"buf": 2, "oq": 3, "res": 0, "pool": 1}[kind]
+        up, down = {"buf": ("bput 0 %d", "bget 0 %d"), "oq": ("oput 0 %d", "oget 0"), "res": ("acq 0", "rel 0"),
+                    "pool": ("pacq 0 %d", "prel 0 %d")}[kind]
+        cmds = []
+        if rng.random() < 0.5:
+            cmds += [up % 1 if "%" in up else up]          # recording starts on a busy object
+        cmds += ["rstart %d 0" % code]
+        level = 1 if len(cmds) == 2 else 0
+        for _ in range(k):
+            n_ = rng.randint(1, 2) if kind in ("buf", "pool") else 1
+            if level == 0 or (level < 3 and kind != "res" and rng.random() < 0.5):
+                cmds.append(up % n_ if "%" in up else up)
+                level += n_
+            else:
+                n_ = min(n_, level)
+                cmds.append(down % n_ if "%" in down else down)
+                level -= n_
+            if rng.random() < 0.7:
+                cmds.append("hold %d" % rng.choice([1, 1, 2, 3]))
+        if rng.random() < 0.7:
+            cmds += ["hold 2", "rstop %d 0" % code]
+        out = [head, "proc %d 1 %d" % (rng.randint(0, 3), len(cmds))] + cmds
+        return out, {"profile": profile, "procs": 1, "lines": len(out)}
     if profile == "poolleft":
         # multi-step pool acquisitions that are served in instalments, with further waiters behind them, and releases that
         # leave something over; everybody parks for ever afterwards (a get from an empty buffer) so that whatever is wrong
